@@ -92,6 +92,38 @@ class IoDomain(OpsDomain):
                 this.precision = it.rvalue(args[0], fr)
                 return None
             raise AnalysisBroken("stream member %s not modelled at %s" % (mname, ir.locstr(e)))
+        # std::copy(std::istream_iterator<double>(file), std::istream_iterator<double>(), std::back_inserter(vec)): the same as
+        # `while (file >> x) vec.push_back(x);`
+        if k == "Construct" and base.startswith("std::istream_iterator"):
+            if not args:
+                return ("istream-end",)
+            s0 = it.eval(args[0], fr)
+            s0 = s0.get() if isinstance(s0, Cell) else s0
+            if isinstance(s0, InStream):
+                return ("istream-begin", s0)
+            if isinstance(s0, tuple) and s0 and s0[0] in ("istream-begin", "istream-end"):
+                return s0
+        if k == "Call" and base == "std::back_inserter" and len(args) == 1:
+            v0 = it.eval(args[0], fr)
+            v0 = v0.get() if isinstance(v0, Cell) else v0
+            if isinstance(v0, Arr):
+                return ("back-inserter", v0)
+        if k == "Construct" and base.startswith("std::back_insert_iterator") and len(args) == 1:
+            v0 = it.rvalue(args[0], fr)
+            if isinstance(v0, tuple) and v0 and v0[0] == "back-inserter":
+                return v0
+        if k == "Call" and base == "std::copy" and len(args) == 3:
+            a_, b_, c_ = (it.rvalue(x_, fr) for x_ in args)
+            if isinstance(a_, tuple) and a_ and a_[0] == "istream-begin" and b_ == ("istream-end",) and isinstance(c_, tuple) and c_ and c_[0] == "back-inserter":
+                src, dst = a_[1], c_[1]
+                while True:
+                    tmp = Cell(None, "istream_iterator value")
+                    self.take_into(src, tmp, e)
+                    if src.fail:
+                        break
+                    dst.sym[dst.length] = tmp.get()
+                    dst.length += 1
+                return c_
         if base == "std::setprecision":
             return Manip("precision", it.rvalue(args[0], fr))
         if base == "std::setw":
@@ -183,6 +215,9 @@ class IoDomain(OpsDomain):
         target = it.eval(a, fr)
         if not isinstance(target, Cell):
             raise AnalysisBroken("extraction target is not an lvalue at %s" % ir.locstr(e))
+        self.take_into(s, target, e)
+
+    def take_into(self, s, target, e):
         if s.fail:
             return
         toks = s.tokens
